@@ -121,7 +121,7 @@ def boundary_fill(g, cid, o, rng):
                 x[n] = rng.choice(cands)
         elif t == "bool":
             x[n] = False
-        elif t == "string" and not s["required"]:
+        elif t == "string" and not s["required"] and n != "definition_type":
             x[n] = rng.choice(["", "0", "false", x[n]])
         elif t == "enum":
             x[n] = rng.choice(k["allowed"])
@@ -266,6 +266,27 @@ def gen_candidates(run, g, per_class):
         if x:
             cands.append((cid, x, "long-list-marking"))
     return cands
+
+
+def fraction_sweep(g, rng, n):
+    """Small 2.1 objects whose timestamps all carry six random fraction digits (the instants must come back exactly)."""
+    out = []
+    for i in range(n):
+        cid = rng.choice(["2.1/Identity", "2.1/Indicator", "2.1/File", "2.1/Sighting"])
+        base = g.obj(cid, 0, {"safe": True}, optional_p=0.0 if cid != "2.1/File" else 0.6)
+        if cid == "2.1/Indicator":
+            base["valid_until"] = "2031-01-01T00:00:00Z"
+        if cid == "2.1/Sighting":
+            base["first_seen"] = "2016-01-01T00:00:00Z"
+            base["last_seen"] = "2031-01-01T00:00:00Z"
+        c = g.classes[cid]
+        names = sorted((s["name"] for s in c["slots"] if s["kind"]["k"] == "time" and s["name"] in base), key=lambda k: base[k])
+        t0 = 1451606400 + rng.randrange(4 * 10 ** 8)
+        for j, k in enumerate(names):
+            d = datetime.datetime.fromtimestamp(t0 + 86400 * j, datetime.timezone.utc)
+            base[k] = d.strftime("%Y-%m-%dT%H:%M:%S") + ".%06dZ" % rng.randrange(10 ** 6)
+        out.append((cid, base, "fraction-sweep"))
+    return out
 
 
 def dig(j, path):
@@ -416,6 +437,7 @@ def check(run):
     g = stixgen.Gen(run.rng)
     defaults = default_pairs(g.spec)
     cands = gen_candidates(run, g, 3 if quick else 16)
+    cands += fraction_sweep(g, run.rng, 160 if quick else 1500)
     cands += witness_candidates()
     failures, live = [], None
     if gen_ok:
@@ -470,7 +492,8 @@ def check(run):
             loss = "rejected: " + line[:120]
         else:
             try:
-                got = dig(extra[i]["ser"], path)
+                # with include_optional_defaults: a given property whose value is the default is not "lost"
+                got = dig(extra[i]["ser_incl"], path)
             except (KeyError, IndexError, TypeError):
                 got = None
             presented = dig(c["data"], path)     # the object as it was handed over in this context
@@ -518,7 +541,7 @@ def replay(payload):
         print("VIOLATION property=C03 replay=(given)")
         return 1
     try:
-        got = dig(extra[0]["ser"], r.get("path", []))
+        got = dig(extra[0]["ser_incl"], r.get("path", []))
     except (KeyError, IndexError, TypeError):
         got = None
     loss = "missing" if got is None else preserved(r["object"], got, default_pairs(spec))
